@@ -17,10 +17,11 @@ from extract import Source, AnchorLost, sha  # noqa: E402
 
 VERIF = os.path.dirname(os.path.dirname(os.path.abspath(__file__)))
 REPO = os.environ.get('VERIF_REPO', '/repo')
-CACHE = os.path.join(VERIF, '.cache')
+CACHE = os.environ.get('VERIF_CACHE', os.path.join(VERIF, '.cache'))     # VERIF_CACHE: a private build cache for a parallel lane (tools/seed_matrix.py)
 KANI_TARGET = os.path.join(CACHE, 'kani-target')
 PLAYBACK_TARGET = os.path.join(CACHE, 'playback-target')
 SCRATCH_ROOT = os.environ.get('VERIF_SCRATCH', '/tmp')
+OUT = os.environ.get('VERIF_OUT', VERIF)      # where evidence/ and replays/ are written (a parallel seed lane writes elsewhere)
 
 ENV = dict(os.environ)
 ENV.update({'CARGO_NET_OFFLINE': 'true', 'CARGO_TERM_COLOR': 'never', 'NO_COLOR': '1'})
@@ -353,7 +354,7 @@ def load_known():
 
 def write_evidence(prop, tier, obligations, results, wall, checker_cmds, assumptions, extra, violations):
     """obligations: list of dict(id, engine, complete, bound, desc, sample); results: id -> dict"""
-    os.makedirs(os.path.join(VERIF, 'evidence'), exist_ok=True)
+    os.makedirs(os.path.join(OUT, 'evidence'), exist_ok=True)
     n = len(obligations)
     discharged = sum(1 for o in obligations if results.get(o['id'], {}).get('status') == 'discharged')
     unb = sum(1 for o in obligations if results.get(o['id'], {}).get('status') == 'discharged' and o.get('complete'))
@@ -389,6 +390,6 @@ def write_evidence(prop, tier, obligations, results, wall, checker_cmds, assumpt
         'wall_s': round(wall, 2),
         'violations': violations,
     }
-    with open(os.path.join(VERIF, 'evidence', prop + '.json'), 'w') as f:
+    with open(os.path.join(OUT, 'evidence', prop + '.json'), 'w') as f:
         json.dump(ev, f, indent=1)
     return ev
